@@ -1,5 +1,6 @@
 import Cvss.Proofs.Parse4Main
 import Cvss.Spec.Errors
+import Cvss.Proofs.DefectMove
 /-!
 # v4.0 parser proofs, part 6: the documented error values (C18)
 
@@ -186,6 +187,21 @@ theorem err_swap {w : List Pair} (hv : Valid w) {i : Nat} {p q : Pair} (hp : w[i
     simp at a1
     omega
 
+/-- "misplaced", in general: element `i` taken out and put back at position `j ≠ i` -/
+theorem err_move {w : List Pair} (hv : Valid w) {i j : Nat} {p : Pair} (hp : w[i]? = some p) (hji : j ≠ i)
+    (hj : j < w.length) :
+    parseK K (Spec.V4.header ++ body (Spec.insertAt (w.eraseIdx i) j p)) = .err Model.eOrder := by
+  apply err_order_of_legal
+  · intro x hx
+    exact hv.1 x (Move.mem_moved hp hx)
+  · rw [Move.length_moved hp]; exact hv.length
+  · intro hsub
+    have h1 := List.Pairwise.sublist hsub rank_sorted
+    have h2 := List.Pairwise.sublist hv.names_sublist rank_sorted
+    rw [Move.map_insertAt, Move.map_eraseIdx] at h1
+    exact Move.moved_not_increasing (fun a => (abvs Spec.V4.metrics).idxOf a) h2 (i := i) (p := p.1)
+      (by rw [List.getElem?_map, hp]; rfl) hji (by simpa using hj) h1
+
 theorem err_truncate {w : List Pair} (hv : Valid w) {n : Nat} (hn : n < 11) :
     parseK K (Spec.V4.header ++ body (w.take n)) = .err Model.eTooShort := by
   rw [parseK_render K _ (fun q hq => hv.lex q (List.mem_of_mem_take hq))]
@@ -288,6 +304,17 @@ theorem defect_v4 {w : List Pair} (hv : Valid w) (d : Spec.Defect) (s : Bytes) (
       obtain ⟨rfl, rfl⟩ := h
       exact err_truncate K hv hn
     · simp at h
+  | move i j =>
+    simp only [Spec.Defect.apply] at h
+    split at h
+    · simp at h
+    · rename_i p hp
+      split at h
+      · simp at h
+      · rename_i hc
+        simp only [Option.some.injEq, Prod.mk.injEq] at h
+        obtain ⟨rfl, rfl⟩ := h
+        exact err_move K hv hp (by omega) (by omega)
 
 end K
 end Proofs.P4
